@@ -232,3 +232,20 @@ CHECKS["C09"] = {
     "assumptions": MC_ASSUME,
     "deadline": {"quick": 600, "thorough": 3000},
 }
+
+
+CHECKS["C18"] = {
+    "builds": tree_check("C18", "")["builds"] + sched_builds(["-DVF_EXEC_OMP", "-DVF_COUNTER"], prefix="sdc"),
+    "runs": [{"driver": "tree_driver", "args": ["--mode", "C18"], "slices": 64, "tag": "seq"},
+             {"driver": "sdc_fast", "args": ["--mode", "C18"], "slices": 48, "tag": "fast"}],
+    "level": "model_checking",
+    "replayable": False,
+    "rule": "(a) sequential executor, TbfInteractionCounter wrapped around the exact kernel, on the C01 enumeration: tree contents identical "
+            "to the unwrapped kernel and each counter equal to the reference count implied by the tree (leaves; parent-child links at "
+            "working levels; existing members of interaction lists; sum n_a n_b over adjacent leaf pairs; sum n(n-1)). (b) OpenMP "
+            "executor under the E3 explorer (full state space of the small driver graphs, named schedules on mid-size trees, W in "
+            "{1,2,3,16}, every worker assignment W^N for N <= 8): after every complete execution the per-worker counters merged with "
+            "Reduce over applyToAllKernels (forward and reverse order) equal the reference counts and the tree equals the sequential one.",
+    "assumptions": MC_ASSUME,
+    "deadline": {"quick": 600, "thorough": 3000},
+}
